@@ -70,6 +70,8 @@ struct Event {
 
 const OPS: &[&str] = &[
     "sign", "verify-valid", "verify-forged", "encrypt", "decrypt-valid", "decrypt-forged", "seal-fixed-nonce", "pie-wrap", "pie-unwrap", "pke-seal", "pke-unseal", "clone-drop", "id", "expose", "public-key", "verify-peer-token",
+    // genuine tags / signatures presented in the wrong context (must fail, and must not affect other threads' use of the same token)
+    "verify-wrong-aad", "decrypt-wrong-aad", "verify-wrong-footer",
 ];
 
 fn build_shared<B: Backend>(seed: u64) -> Shared<B> {
@@ -151,6 +153,12 @@ fn do_op<B: Backend>(sh: &Shared<B>, op: &'static str, i: usize, peer: Option<(S
         },
         "decrypt-valid" => (kl().open(&sh.valid_local[i % 16], b"").map(|(c, _)| c == *m).unwrap_or(false), String::new(), None),
         "decrypt-forged" => (kl().open(&sh.forged_local[i % 16], b"").is_err(), String::new(), None),
+        "verify-wrong-aad" => (kp().open(&sh.valid_public[i % 16], b"unexpected assertion").is_err(), String::new(), None),
+        "decrypt-wrong-aad" => (kl().open(&sh.valid_local[i % 16], b"unexpected assertion").is_err(), String::new(), None),
+        "verify-wrong-footer" => {
+            let (h, b, f) = split_token(&sh.valid_public[i % 16]);
+            (kp().open(&join_token(&h, &b, if f.is_empty() { b"added" } else { b"" }), b"").is_err(), String::new(), None)
+        }
         "seal-fixed-nonce" => match kl().seal_with_nonce(&sh.nonces[i % 16], m, b"f", b"") {
             Ok(t) => (t == sh.det_local_tokens[i % 16], "deterministic output equals the sequential value".into(), None),
             Err(_) => (false, "seal failed".into(), None),
